@@ -30,6 +30,11 @@ enum Place {
     /// the child is dead and somebody else has already collected it (the process ignores SIGCHLD, a handler or another
     /// thread called wait): there is no status to be had any more, but the child is certainly not running
     ReapedElsewhere,
+    /// the child never exits and is, on top of that, stopped by job control (suspended, not terminated) during the call
+    Stopped,
+    /// the child never exits; after a few naps the calling thread is not scheduled until shortly before the deadline
+    /// (the machine was suspended): makes "still running after 26 days" affordable
+    NeverLongSuspend,
 }
 
 fn backoff_start(j: u32) -> (i64, i64) {
@@ -130,6 +135,24 @@ fn one(ctx: &mut Ctx, rng: &mut Rng, d_ns: i128, place: Place, code: u8) {
         Place::AtDeadline => exit_off = Some(d_ns.min(i64::MAX as i128 / 4) as i64),
         Place::BeforeDeadline(x) => exit_off = Some((d_ns.min(i64::MAX as i128 / 4) as i64 - x).max(1)),
         Place::Never => {}
+        Place::Stopped => {
+            unsafe { crate::interpose::real_kill(pid, libc::SIGSTOP) };
+            for _ in 0..5000 {
+                if crate::inspect::proc_state(pid) == Some('T') {
+                    break;
+                }
+                std::thread::sleep(std::time::Duration::from_micros(100));
+            }
+            ctx.count("queries_about_a_stopped_child", 1);
+            check_poll(ctx, &mut p, None, "stopped");
+        }
+        Place::NeverLongSuspend => {
+            let now = vclock::now_ns() as i64;
+            vclock::JUMP_AFTER_SLEEPS.store(vclock::SLEEPS.load(SeqCst) + rng.range(3, 40), SeqCst);
+            vclock::JUMP_TO.store(now.saturating_add((d_ns.min(i64::MAX as i128 / 4) as i64).saturating_sub(rng.range(1, 20) as i64 * 1_000_000_000)), SeqCst);
+            vclock::NEVER_EXITS_PID.store(pid, SeqCst);
+            ctx.count("long_waits_with_a_suspended_caller", 1);
+        }
         Place::ReapedElsewhere => {
             vclock::plan_exit(1, fifo_fd, pid, b'x', code);
             vclock::fire_exit();
@@ -171,7 +194,13 @@ fn one(ctx: &mut Ctx, rng: &mut Rng, d_ns: i128, place: Place, code: u8) {
         .set("sleeps", J::i(sleeps as i64))
         .set("events_tail", J::arr_s(&ilog::fmt_tail(&evs, 16)));
     let slack = JITTER as i128 + ticks + MS as i128;
-    if m.cert.is_some() || m.panic.is_some() {
+    vclock::NEVER_EXITS_PID.store(0, SeqCst);
+    if place == Place::Stopped {
+        unsafe { crate::interpose::real_kill(pid, libc::SIGCONT) };
+    }
+    if vclock::BLOCKING_WAITS_ON_NEVER_EXITING.load(SeqCst) > 0 {
+        ctx.violation(&format!("C11/blocks-in-wait/{}", label), "wait_timeout issued a wait without WNOHANG on a child that never exits: it would not come back at the deadline, or ever", w.clone());
+    } else if m.cert.is_some() || m.panic.is_some() {
         ctx.violation(&format!("C11/wait_timeout-fails/{}", label), "wait_timeout hung or panicked", w.clone());
     } else {
         match m.result {
@@ -266,12 +295,15 @@ pub fn run(ctx: &mut Ctx) {
         (0, "0"), (1, "1ns"), (999_000, "999us"), (1_000_000, "1ms"), (3_000_000, "3ms"), (127_000_000, "127ms"), (130_000_000, "130ms"),
         (1_003_000_000, "1.003s"), (10 * s, "10s"), (3600 * s, "1h"), (26 * 86400 * s, "26d"), (315_360_000 * s, "10y"), ((1i128 << 40) * s, "2^40s"),
     ];
-    let places_fixed: Vec<Place> = vec![Place::Before, Place::Known, Place::AtDeadline, Place::Never, Place::ReapedElsewhere];
+    let places_fixed: Vec<Place> = vec![Place::Before, Place::Known, Place::AtDeadline, Place::Never, Place::ReapedElsewhere, Place::Stopped, Place::NeverLongSuspend];
     let mut plan_list: Vec<(i128, String, Place)> = vec![];
     for (d, name) in ds.drain(..) {
         for pl in &places_fixed {
-            if (*pl == Place::Never || *pl == Place::AtDeadline) && d > 3600 * s {
+            if (*pl == Place::Never || *pl == Place::AtDeadline || *pl == Place::Stopped) && d > 3600 * s {
                 continue; // run to completion only up to 1 h (see "26d-never" below): one loop iteration per 100 ms of d
+            }
+            if *pl == Place::NeverLongSuspend && (d < 600 * s || d > 315_360_000 * s) {
+                continue;
             }
             plan_list.push((d, name.to_string(), *pl));
         }
